@@ -1,11 +1,14 @@
 #!/bin/sh
-# Build the whole framework from files on disk (offline): the Coq development
-# (full .vo build), the extracted model driver, the Go harness against /repo.
+# Build the whole framework from files on disk (offline): the Go harness against /repo, the
+# model parts generated from /repo's source (parse specs, writer programs), the Coq development
+# (full .vo build), the extracted model driver.
 set -e
 cd "$(dirname "$0")"
 export GOFLAGS=-mod=mod GOPROXY=off GOSUMDB=off GOTOOLCHAIN=local CGO_ENABLED=1
+./harness/build.sh
+mkdir -p coq/gen evidence replays
+./build/srcfacts -coq coq/gen/ParseSpecs.v > /dev/null
+./build/wprogs -repo /repo -out coq/gen/WriterProgs.v
 ( cd coq && coq_makefile -f _CoqProject -o Makefile && timeout 3000 make -j16 > /dev/null )
 ./ocaml/build.sh
-./harness/build.sh
-mkdir -p evidence replays
 echo "setup done"
